@@ -1618,8 +1618,10 @@ fn run_walk_stack(a: &Arch, c: &Case) -> Result<String, String> {
 /// labelled `$rsp:` overwrites or clears the value the frame reports).
 fn glue(c: &Case, a: &Arch, st: Option<(u64, u64, Vec<(String, u64)>)>) -> String {
     let Some((_, sp, leaf, strip)) = &c.stack else { return "bad-op".into() };
+    // `memory_range()`: None for an empty memory and when `base.checked_add(size)` overflows (a region
+    // ending exactly at 2^64 included)
     let in_stack = !c.mem.is_empty()
-        && c.mem_base.checked_add(c.mem.len() as u64 - 1).is_some()
+        && c.mem_base.checked_add(c.mem.len() as u64).is_some()
         && *sp >= c.mem_base
         && *sp - c.mem_base < c.mem.len() as u64;
     let Some((cfa0, ra0, mut regs)) = st else { return "nocfi".into() };
@@ -1837,6 +1839,54 @@ fn gen_stack(rng: &mut Rng) -> String {
         }
         c.adds.push((addr, parts.join(" ").into_bytes()));
     }
+    // texts written the way only hex transport carries them to the `walk` protocol: leading blanks /
+    // tabs (swallowed by the symbol-file parser), tabs and form feeds between tokens, a leading form
+    // feed (kept), `_ ; | ,` inside tokens
+    if rng.chance(1, 8) {
+        let odd = |t: &mut Vec<u8>, rng: &mut Rng| {
+            match rng.below(6) {
+                0 => t.insert(0, b' '),
+                1 => t.insert(0, b'\t'),
+                2 => {
+                    t.insert(0, b'\t');
+                    t.insert(0, b' ');
+                }
+                3 => t.insert(0, 0x0c),
+                4 => {
+                    for b in t.iter_mut() {
+                        if *b == b' ' && rng.chance(1, 3) {
+                            *b = *rng.pick(&[b'\t', 0x0c]);
+                        }
+                    }
+                }
+                _ => {
+                    const TAILS: &[&str] = &[" r_x: 1", " $rbx: r_x", " a|b: 2", " x;y: 3", " p,q: 4", " \t"];
+                    t.extend_from_slice(rng.pick(TAILS).as_bytes())
+                }
+            }
+        };
+        odd(&mut c.init, rng);
+        for (_, t) in c.adds.iter_mut() {
+            if rng.chance(1, 2) {
+                odd(t, rng);
+            }
+        }
+    }
+    if rng.chance(1, 16) {
+        // two deltas at one address giving one register different values, one of them written with
+        // leading blanks: the order of the STORED texts decides which applies last
+        let addr = c.init_addr + rng.below(c.init_size + 1);
+        let r = a.saved[rng.below(a.saved.len() as u64) as usize];
+        let lead = *rng.pick(&[" ", "\t", "  ", " \t"]);
+        let (t1, t2) = (format!("{lead}{r}: {}", 5 + rng.below(4)), format!("{r}: {}", 1 + rng.below(4)));
+        if rng.chance(1, 2) {
+            c.adds.push((addr, t1.into_bytes()));
+            c.adds.push((addr, t2.into_bytes()));
+        } else {
+            c.adds.push((addr, t2.into_bytes()));
+            c.adds.push((addr, t1.into_bytes()));
+        }
+    }
     render(&c)
 }
 
@@ -1850,15 +1900,11 @@ fn gen_stack(rng: &mut Rng) -> String {
 // stack compared). The `wlk` execution also re-derives the `stack` answer from the very call stack
 // it shows, so a slip of the translation between the two case formats cannot hide.
 
-/// rule text the `walk` protocol can carry verbatim (`_` stands for a space there; `;` `|` `,`
-/// separate records; fields are split at single spaces)
+/// rule text the `walk` protocol can carry: since rule text travels hex-encoded there
+/// (`walk::render_recs`) this is every text a symbol-file line can hold — valid UTF-8 without CR / LF
 fn transportable(r: &[u8]) -> bool {
     let Ok(t) = std::str::from_utf8(r) else { return false };
-    !t.is_empty()
-        && !t.starts_with(' ')
-        && !t.ends_with(' ')
-        && !t.contains("  ")
-        && t.chars().all(|ch| ch == ' ' || (!ch.is_ascii_control() && !matches!(ch, '_' | ';' | '|' | ',')))
+    !t.contains('\n') && !t.contains('\r')
 }
 
 /// the `walk`-engine case with the same context, stack memory, module and STACK CFI records
